@@ -355,7 +355,8 @@ def r4_defaults_alignment(repo: Repo, rep):
     # partial evaluation on signatures of positional-or-keyword parameters: inspect.getfullargspec is modelled by its documented fields
     from collections import OrderedDict
     from ..absdom.listeval import Evaluator, Obj, Opaque, UNKNOWN
-    cases = [(["x", "t", "k", "j"], (1, 2)), (["a"], None), (["a", "b", "c"], (5,)), (["a", "b"], (7, 8)), ([], None), (["u", "v", "w", "p", "q"], (1, 2, 3))]
+    cases = [(["x", "t", "k", "j"], (1, 2)), (["a"], None), (["a", "b", "c"], (5,)), (["a", "b"], (7, 8)), ([], None), (["u", "v", "w", "p", "q"], (1, 2, 3)),
+             (["self", "x"], None), (["cls", "t", "k"], (3,))]  # a parameter is identified by its declared name whatever that name is (a plain function may call its first parameter `self`)
     for args, defaults in cases:
         spec = Obj("spec", {"args": list(args), "varargs": None, "varkw": None, "defaults": defaults, "kwonlyargs": [], "kwonlydefaults": None, "annotations": {}})
 
